@@ -426,12 +426,13 @@ fn main() {
         };
         ctx.finish_replay(r.map(|(k, m)| format!("{k}: {m}")));
     }
-    ctx.rule("views: every (sample format of 14, N in 1..=32, L in 0..=3N+2): to_frame_slice/from_sample_slice(+_mut) is Some iff N|L, L/N frames, same data pointer, frame i channel c == sample i*N+c on position-coded data, mutable views write through, to_sample_slice/from_frame_slice(+_mut) invert (pointer, length, contents); boxed under a counting allocator: success => 0 allocator events and the same allocation, failure => None and live heap bytes back to the value before the box existed, dropping the round-tripped box frees it; non-trivial = L>0, distinct by (format, N, L)");
+    ctx.rule("views: every (sample format of 14, N in 1..=32, L in 0..=3N+2 and 100N, 100N+1, 65535, 65536, 65537): to_frame_slice/from_sample_slice(+_mut) is Some iff N|L, L/N frames, same data pointer, frame i channel c == sample i*N+c on position-coded data, mutable views write through, to_sample_slice/from_frame_slice(+_mut) invert (pointer, length, contents); boxed under a counting allocator: success => 0 allocator events and the same allocation, failure => None and live heap bytes back to the value before the box existed, dropping the round-tripped box frees it; non-trivial = L>0, distinct by (format, N, L)");
     ctx.rule("in-place ops: equilibrium/map_in_place/zip_map_in_place/write/add_in_place/add_in_place_with_amp_per_channel for every length pair (la, lb) in 0..=5^2 over 6 frame types: equal lengths => element-wise real frame op, different => panic with the destination bit-identical and the closure never called");
     let mut evals = 0u64;
     for (fmt, n, f) in &table {
         // every L up to 3N+2, plus two long slices (scale probes)
-        for l in (0..=3 * n + 2).chain([100 * n, 100 * n + 1]) {
+        // every L up to 3N+2, two long slices, and the 16-bit boundary (a length kept in 16 bits would wrap)
+        for l in (0..=3 * n + 2).chain([100 * n, 100 * n + 1, 65535, 65536, 65537]) {
             let case = json!({"sys": "view", "fmt": fmt, "n": n, "l": l});
             let _guard_scope = guard::scoped(&case.to_string());
             evals += 1;
